@@ -9,6 +9,7 @@ Op lines (strings percent-encoded; `<hdrs>` = `_` or `k|v;k|v…`; `<list>` = `_
   reqstart / respstart          accumulator := fresh NoOp                      → ok
   rq <name> / rs <name>         accumulator := accumulator.Prioritize(object)  → act <action> spoe <n> <var>…
   show <name>                   current state of the object                    → obj <action>
+  reqsite <name>… / respsite <name>…   the real fold site on these objects     → spoe <n> <var>…
 -/
 open LunarVerif LunarVerif.Proto LunarVerif.C07
 
@@ -143,6 +144,15 @@ def splitAnswer (ws : List String) : Option (List String × List SVar) :=
     | _ => none
   | _ => none
 
+/-- Parse an answer `spoe <n> <vars…>`. -/
+def parseSpoe (ws : List String) : Option (List SVar) :=
+  match ws with
+  | "spoe" :: n :: vars =>
+    match n.toNat?, vars.mapM parseVar with
+    | some k, some vs => if k == vs.length then some vs else none
+    | _, _ => none
+  | _ => none
+
 /-! ### run -/
 
 structure RunSt where
@@ -180,6 +190,26 @@ def runStep (s : RunSt) (line : String) : RunSt × String :=
       | some a =>
         let r := respPrio s.racc a
         ({ s with racc := r }, s!"act {fmtResp r} {fmtEnc (encodeResp r)}")
+  | "reqsite" :: names =>
+    match names.findSome? (fun n => match s.store.lookup n with
+        | none => some "err:unknown-object"
+        | some o => if o.asReq.isNone then some "err:not-request-action" else none) with
+    | some e => (s, e)
+    | none =>
+      match foldReqH s.store (.val .noop) names with
+      | some (st, acc) =>
+        match acc.get st with
+        | some a => ({ s with store := st }, fmtEnc (encodeReq a))
+        | none => (s, "err:model-dangling-accumulator")
+      | none => (s, "err:model-fold-failed")
+  | "respsite" :: names =>
+    match names.findSome? (fun n => match s.store.lookup n with
+        | none => some "err:unknown-object"
+        | some o => if o.asResp.isNone then some "err:not-response-action" else none) with
+    | some e => (s, e)
+    | none =>
+      let vals := names.filterMap fun n => (s.store.lookup n).bind Obj.asResp
+      (s, fmtEnc (encodeResp (foldResp vals)))
   | ["show", name] =>
     match s.store.lookup name with
     | none => (s, "err:unknown-object")
@@ -230,6 +260,18 @@ def judgeStep (s : JudgeSt) (op out : String) : JudgeSt :=
         { s with sins := ins, prev := o, obs := (.resp ins s.prev o vs, s.names) :: s.obs }
       | none => { s with bad := some ("unparsable-action:" ++ pctEnc out) }
     | _, _ => { s with bad := some ("unparsable-answer:" ++ pctEnc out) }
+  | "reqsite" :: names =>
+    if out.startsWith "err:" then s else
+    match names.mapM (fun n => (s.defs.lookup n).bind Obj.asReq), parseSpoe (words out) with
+    | some ins, some vs =>
+      let all := s.names ++ names
+      { s with names := all, obs := (.reqSite ins vs, all) :: s.obs }
+    | _, _ => { s with bad := some ("unparsable-answer:" ++ pctEnc out) }
+  | "respsite" :: names =>
+    if out.startsWith "err:" then s else
+    match names.mapM (fun n => (s.defs.lookup n).bind Obj.asResp), parseSpoe (words out) with
+    | some ins, some vs => { s with obs := (.respSite ins vs, s.names) :: s.obs }
+    | _, _ => { s with bad := some ("unparsable-answer:" ++ pctEnc out) }
   | _ => s
 
 def explain : Obs × List String → Option String
@@ -245,6 +287,16 @@ def explain : Obs × List String → Option String
     else if !respEncOk out enc then
       some s!"{if f07aClass out.hdrs then "F07a" else "-"} response-encoding-does-not-carry-the-action step={ins.length} out={pctEnc (fmtResp out)}"
     else none
+  | (.reqSite ins enc, names) =>
+    if reqSiteHolds ins enc then none
+    else
+      let fid := if f07bClass names then "F07b" else if f07aClass (ins.flatMap (·.hdrs)) then "F07a" else "-"
+      some s!"{fid} request-fold-site-variables-violate-the-rule n={ins.length} enc={pctEnc (fmtEnc enc)}"
+  | (.respSite ins enc, _) =>
+    if respSiteHolds ins enc then none
+    else
+      let fid := if f07aClass (ins.flatMap (·.hdrs)) then "F07a" else "-"
+      some s!"{fid} response-fold-site-variables-violate-the-rule n={ins.length} enc={pctEnc (fmtEnc enc)}"
 
 def judgeFinish (s : JudgeSt) : String :=
   match s.bad with
